@@ -1,0 +1,68 @@
+//! Verification hooks: thin public wrappers around crate-private items so
+//! that an external harness can observe them. Only compiled with the
+//! `verif-hooks` feature; adds no behaviour.
+
+use std::{
+    io::{BufRead, Result as IoResult},
+    ops::ControlFlow,
+};
+
+use crate::{
+    format_version::try_version_from_line,
+    reader::{Decoder, Encoding},
+    section::general::GameMode,
+};
+
+/// `format_version::try_version_from_line`:
+/// `None` = continue, `Some(Ok(v))` = version, `Some(Err(()))` = not a version line.
+pub fn version_from_line(line: &str) -> Option<Result<i32, ()>> {
+    match try_version_from_line(line) {
+        ControlFlow::Continue(()) => None,
+        ControlFlow::Break(Ok(v)) => Some(Ok(v)),
+        ControlFlow::Break(Err(_)) => Some(Err(())),
+    }
+}
+
+/// `section::hit_objects::decode::get_precision_adjusted_beat_len`
+pub fn precision_adjusted_beat_len(slider_velocity: f64, beat_len: f64, mode: GameMode) -> f64 {
+    crate::section::hit_objects::decode::get_precision_adjusted_beat_len(
+        slider_velocity,
+        beat_len,
+        mode,
+    )
+}
+
+/// `reader::encoding::Encoding::from_bom` as `(index, consumed)` with
+/// index 0 = UTF-8, 1 = UTF-16BE, 2 = UTF-16LE.
+pub fn encoding_from_bom(bom: &[u8]) -> (u8, usize) {
+    let (enc, n) = Encoding::from_bom(bom);
+    (enc as u8, n)
+}
+
+/// `reader::encoding::Encoding::decode` into an owned string.
+pub fn encoding_decode(enc: u8, src: &[u8]) -> String {
+    let enc = match enc {
+        1 => Encoding::Utf16BE,
+        2 => Encoding::Utf16LE,
+        _ => Encoding::Utf8,
+    };
+    let mut dst = String::new();
+    enc.decode(src, &mut dst).to_owned()
+}
+
+/// `reader::decoder::Decoder`
+pub struct LineDecoder<R>(Decoder<R>);
+
+impl<R: BufRead> LineDecoder<R> {
+    pub fn new(inner: R) -> IoResult<Self> {
+        Decoder::new(inner).map(Self)
+    }
+
+    pub fn read_line(&mut self) -> IoResult<Option<String>> {
+        self.0.read_line().map(|opt| opt.map(str::to_owned))
+    }
+
+    pub fn curr_line(&mut self) -> String {
+        self.0.curr_line().to_owned()
+    }
+}
